@@ -4,7 +4,8 @@
      columns: a non-rowid primary key column without NOT NULL really accepts NULL) - validated live.
    * partial indexes: get_indexes fetches the CREATE INDEX text with
        SELECT sql FROM <schema>.sqlite_master WHERE name = ? AND type = 'index'
-     (the table's own schema; unqualified = main) and searches it with  \)\s+where\s+(.+)  (re.I).
+     (the table's own schema; unqualified = main) and searches it with  \)\s+where\s+(.+)  (re.I | re.DOTALL:
+     the group runs to the end of the text, newlines included - /repo dd187db).
    The expression of the nullable rule and the schema qualification of the query are extracted from the
    current source on every run (Gen_C15.v); the theorems are stated for any rule / flag satisfying the
    per-run obligation. *)
@@ -15,10 +16,8 @@ Open Scope N_scope.
 
 Definition kwWHERE : str := [87; 72; 69; 82; 69].
 
-(* (.+) : greedy, to the end of the line, at least one character *)
-Fixpoint take_line (t : str) : str :=
-  match t with c :: r => if dotc c then c :: take_line r else [] | [] => [] end.
-Definition line_of (t : str) : option str := match take_line t with [] => None | g => Some g end.
+(* (.+) with DOTALL: greedy, to the end of the text, at least one character *)
+Definition line_of (t : str) : option str := match t with [] => None | g => Some g end.
 (* \s+(.+) after at least one space was consumed: consume more spaces first (greedy), else start the group here *)
 Fixpoint best (t : str) : option str :=
   match t with
@@ -73,7 +72,7 @@ Fixpoint iclean (s t : str) : bool :=
   | c :: s' => (if c =? rpar then is_none (pred_after_paren (s' ++ t)) else true) && iclean s' t
   end.
 Definition pred_ok (w : str) : bool :=
-  match w with c :: _ => negb (is_space c) && forallb dotc w | [] => false end.
+  match w with c :: _ => negb (is_space c) | [] => false end.
 
 Lemma pred_search_clean : forall s t, iclean s t = true -> pred_search (s ++ t) = pred_search t.
 Proof.
@@ -84,21 +83,14 @@ Proof.
   - apply IH. exact Hs.
 Qed.
 
-Lemma take_line_all : forall w, forallb dotc w = true -> take_line w = w.
-Proof.
-  induction w as [|c w IH]; intros H; [reflexivity|]. cbn [forallb] in H. apply andb_true_iff in H.
-  destruct H as [Hc Hw]. cbn [take_line]. rewrite Hc, (IH Hw). reflexivity.
-Qed.
-
 Lemma pred_after_paren_rendered : forall w, pred_ok w = true ->
   pred_after_paren ([sp] ++ kwWHERE ++ [sp] ++ w) = Some w.
 Proof.
-  intros [|c w] H; [discriminate|]. unfold pred_ok in H. apply andb_true_iff in H. destruct H as [Hs Hd].
-  apply negb_true_iff in Hs.
+  intros [|c w] H; [discriminate|]. unfold pred_ok in H. apply negb_true_iff in H. rename H into Hs.
   unfold pred_after_paren. cbn [app]. rewrite spaces1_sp.
   change (drop_spaces (kwWHERE ++ sp :: c :: w)) with (kwWHERE ++ sp :: c :: w).
   rewrite ci_prefix_self. unfold pred_tail. change (is_space sp) with true. cbn match.
-  cbn [best]. rewrite Hs. unfold line_of. rewrite (take_line_all (c :: w) Hd). reflexivity.
+  cbn [best]. rewrite Hs. reflexivity.
 Qed.
 
 (* the predicate of a rendered partial index is read back, for every index name / table / column list that
@@ -161,3 +153,9 @@ Proof. intros rule H c. unfold reflect_nullable, table_info_notnull. rewrite H. 
 Theorem nullable_pk_rule_refuted :
   reflect_nullable (fun nn pk => negb nn && negb pk) {| c_nullable := true; c_pk := 2 |} = false.
 Proof. reflexivity. Qed.
+
+(* a predicate spanning several lines is read back whole (repaired by /repo dd187db; it used to be cut at the newline) *)
+Example index_pred_newline_roundtrip :
+  pred_search (render_index false [105] [116] [[120]] (Some [34; 97; 10; 98; 34; 32; 62; 32; 48])) =
+  Some [34; 97; 10; 98; 34; 32; 62; 32; 48].
+Proof. vm_compute. reflexivity. Qed.
